@@ -64,19 +64,26 @@ SPECS["C19"] = {
     "sweeps": [[]],
     "nontrivial": lambda c: any(t in c["tags"] for t in (
         "failure-skipped-later-hooks", "failure-after-earlier-hooks", "after-rewrote-result",
-        "after-saw-error", "depth3")),
+        "after-saw-error", "depth3", "list-continued-with-elapsed-deadline",
+        "elapsed-deadline+list+later-hook-failed")),
     "rule": "one script = one composition of the real wrappers (outermost first over {B .before(obj), A .after(closure), "
             "C .before_and_after(obj), L before().then(..).then_fn(..).serving(s), M s.before(list)}) + scripted hooks "
-            "(context keep/set/wrapping add; fail never/always/ctx>=t/req=q; result keep/set/map/recover/fail/ctx) + one "
-            "serve() call; half of the scripts are nestings of depth 0..3 (lists 0..2), half chains of length 0..5 under "
+            "(span id keep/set/wrapping add; deadline keep/set to T0+k ms, k<0 past, k=0 now, k>0 future; fail never/always/"
+            "span>=t/req=q/deadline-elapsed; result keep/set/map/recover/fail/span/deadline) + one serve() call made under "
+            "the virtual clock (Instant::now() = T0 throughout, so deadlines are observed exactly) with a live or an elapsed "
+            "deadline (30% arrive expired: -1 h, -60 s, -1 ms or exactly now; in another 25% an early before-hook moves the "
+            "deadline to now/the past; in both modes chains have >=2 hooks and 70% have a hook after the first one failing; "
+            "tags list-continued-with-elapsed-deadline and elapsed-deadline+list+later-hook-failed count them); half of the scripts are nestings of depth 0..3 (lists 0..2), half chains of length 0..5 under "
             "an optional outer wrapper, 60% with a designated failing before-hook at a uniformly drawn position; every "
             "nesting is its own statically nested Rust type (type-level recursion, 156 shapes + chain family); "
             "non-trivial = a before-hook failed with hooks before or after it, or an after-hook saw an error or rewrote "
-            "the result, or depth 3; distinct = distinct script text; thorough adds the bounded-exhaustive family: all "
+            "the result, or depth 3, or a list went on after a hook left an elapsed deadline; distinct = distinct script text; thorough adds the bounded-exhaustive family: all "
             "156 nestings of depth<=3 with no failure and with each before-hook failing in turn, and chains 0..5 (L and M "
-            "forms, under no/B/A/C outer wrapper) with every failing position",
+            "forms, under no/B/A/C outer wrapper) with every failing position, each also called with an elapsed deadline (-60 s "
+            "and exactly now) and with each hook in turn moving a live deadline to now",
     "trusted_base": COMMON_TB + [
-        "modelled, not verified: the part of context::Context a hook changes is one u64 (trace_context.span_id); "
+        "modelled, not verified: the part of context::Context a hook changes is the span id (u64) and the deadline "
+        "(exact signed ms relative to the fixed instant of the call; harness virtual clock); "
         "hooks are scripted effects, hook-internal state (&mut self) carried from the before part to the after part "
         "of a before-and-after hook is not modelled; one serve() call per composition (serve consumes self)",
     ],
@@ -85,14 +92,16 @@ SPECS["C19"] = {
                   "of Before/BeforeList/After/BeforeAfter wrappers (any nesting and depth, by structural induction), every "
                   "chain length and failing position, every initial context, request and scripted hook behaviour, the model "
                   "of request_hook/*.rs runs before-hooks in chain order on the context left by their predecessors, stops at "
-                  "the first failure without invoking the handler and returns its error, runs each after-hook exactly once "
+                  "the first failure without invoking the handler and returns its error (C19_handler_sees_chain_ctx, "
+                  "C19_chain_keeps_deadline, C19_deadline_irrelevant: the deadline travels with the context to every hook and "
+                  "the handler and its value decides nothing in the wrappers), runs each after-hook exactly once "
                   "after what it wraps (including an inner before-hook's error) and returns what it left, and skips the after "
                   "part of a combined hook exactly when its before part fails, otherwise showing it the context the before "
                   "part produced. The model is tied to the code by running generated compositions of the real wrapper types "
                   "(every nesting to depth 3, chains 0..5) with recording hooks and comparing events and result inside Coq; "
                   "the monitor proved correct for the model is also evaluated on the implementation's traces.",
     "level_note": "Trusted: Coq kernel, vm_compute, the Rust harness and Python driver. Modelled not verified: the context "
-                  "as one u64 field; hooks as scripted effects without internal state; futures that are immediately ready. "
+                  "as span id + deadline; hooks as scripted effects without internal state; futures that are immediately ready. "
                   "The statement does not say which context a plain after-hook sees; the model (and the code) give it the "
                   "wrapper's own copy, unaffected by inner before-hooks, and the monitor leaves it unconstrained. "
                   "Correspondence is sampled (bounded-exhaustive to depth 3 in thorough), not proved.",
@@ -157,14 +166,48 @@ SPECS["C20"] = {
 # WIRE and TIME layer: C15, C07, C16 (models Wire.v / Framing.v / Shipped.v / Time.v; the
 # translator tools/gen re-derives coq/Generated.v from /repo at the start of every run)
 def wire_translator():
-    """spec["translator"]: run tools/gen; an error here is an infrastructure failure."""
+    """Runs tools/gen (sources: lib.vcheck.REPO). Returns (ok, text): whether the generated side
+    conditions hold when they were compiled privately (VERIF_REPO mode; in the normal mode they are
+    ordinary make targets and this returns (True, ""))."""
     import os
+    import re
     import subprocess
     from . import vcheck as V
     p = subprocess.run([os.path.join(V.ROOT, "tools", "gen")], stdout=subprocess.PIPE,
                        stderr=subprocess.STDOUT, text=True, timeout=1800)
     if p.returncode != 0:
         raise V.Infra("translator tools/gen failed:\n" + p.stdout[-4000:])
+    m = re.search(r"GENCHECKS-ALT failed (\S+)", p.stdout)
+    if m:
+        return False, ("generated side conditions (coq/GenChecks) do not hold for the sources under "
+                       + V.REPO + ":\n" + open(m.group(1)).read()[-2500:])
+    return True, ""
+
+
+def wire_runner(spec, tier, seed):
+    """flow.run_property with the translator run first. With VERIF_REPO set, Generated.v and the
+    GenChecks are compiled in a private directory (the shared coq/Generated.v is not touched); a
+    failure there is reported to the flow as a broken proof obligation."""
+    from . import flow, vcheck as V
+    gen_ok, gen_out = wire_translator()
+    spec2 = dict(spec)
+    spec2.pop("translator", None)
+    spec2.pop("runner", None)
+    if V.REPO != "/repo":
+        spec2["coq_targets"] = [t for t in spec["coq_targets"] if not t.startswith("GenChecks/")]
+    orig = V.make_targets
+
+    def patched(targets, timeout=1500):
+        ok, out = orig(targets, timeout)
+        if ok and not gen_ok:
+            return False, gen_out
+        return ok, out
+
+    V.make_targets = patched
+    try:
+        return flow.run_property(spec2, tier, seed)
+    finally:
+        V.make_targets = orig
 
 
 WIRE_HDR = ("From Coq Require Import String Ascii.\nFrom Coq Require Import List NArith ZArith Bool.\n"
@@ -183,7 +226,8 @@ WIRE_TB = [
 SPECS["C15"] = {
     "pid": "C15",
     "harness": "c15",
-    "translator": wire_translator,
+    "translator": wire_translator,   # run by wire_runner (which then removes it from the spec it hands to the flow)
+    "runner": wire_runner,
     "coq_targets": ["Properties/C15.vo", "Checks/C15check.vo", "GenChecks/C15.vo"],
     "gen_obligations": ["gen_client_message_shape", "gen_response_shape", "gen_client_message_shape_wf",
                         "gen_response_shape_wf", "gen_kind_types", "gen_kind_ser_table", "gen_kind_de_table",
